@@ -341,9 +341,16 @@ def judge(ctx, rng, tag, scripts, events, vsample, st):
                 for sig in viol_sigs(r["expected"], e["m"]):
                     report(i, j, sig, dict(base, violated=r["expected"]))
             elif r["why"] == "diverge":
-                expd = canon(r["expected"]["d"])
-                kind = diff_kind(canon(e["dir"]), expd, e["tmp"], r["expected"]["tmp"])
-                report(i, j, "C32:diverge:" + kind, dict(base, specified=show(expd)))
+                # describe the difference against the closer of the two specified results
+                obsd = canon(e["dir"])
+                spec = r["expected"]["code"]
+                pat = r["expected"]["patched"]
+                keys = lambda c: {(x[0], x[1]) for x in c}
+                if keys(canon(pat["d"])) == keys(obsd) != keys(canon(spec["d"])):
+                    spec = pat
+                kind = diff_kind(obsd, canon(spec["d"]), e["tmp"], spec["tmp"])
+                report(i, j, "C32:diverge:" + kind, dict(base, specified=show(canon(spec["d"])), tmp_specified=spec["tmp"],
+                                                         tmp_observed=e["tmp"]))
             else:
                 report(i, j, "C32:junk:" + (e["junk"][0].split(":")[1] if e["junk"] else "?"), dict(base, junk=e["junk"]))
     # what R could not decide must have been decided by the trace spec
